@@ -116,6 +116,22 @@ def check_case(case: dict, note: Note) -> Failure | None:
     raise AssertionError(kind)
 
 
+def _sig_ellipsis_before_escape(case: dict, f: Failure) -> bool:
+    """The first output has '...' directly followed (after optional spaces) by a backslash escape: the text node then
+    ends at the escape on the next run, and the end of a text node counts as a boundary for the ellipsis rule."""
+    import re
+
+    if case.get("kind") != "doc" or f.bucket != "doc-second-application-changes":
+        return False
+    o = dict(case["opts"])
+    o.pop("ellipses", None)
+    once = opts.fmt(case["text"], dict(o, ellipses=True))
+    return re.search(r"\.\.\.[^\s\w]*[ \t]*\\", once) is not None
+
+
+SIGS = {"ellipsis_before_escape": _sig_ellipsis_before_escape}
+
+
 def _sweep(ctx: Ctx, L: int):
     idx = 0
     for n in range(0, L + 1):
